@@ -218,7 +218,7 @@ def _panic_head(stderr):
 
 def _tlc_trace(ctx, path, label):
     r = ctx.tlc("ClientBatchTrace", "cb-trace.cfg", files=[(path, "trace.ndjson")], workers=1, deque=True,
-                label=label, seed=False, allow_violation=True)
+                label=label, seed=False, allow_violation=True, heap="2g")
     if r.ok:
         return None
     for l in r.out.splitlines():
@@ -300,7 +300,7 @@ def run(ctx):
 
     # 1. the model's own laws (exhaustive), the harness build and the exports run side by side
     def law(cfg):
-        return lambda: ctx.tlc("ClientBatchMC", cfg, workers=per, label="laws-" + cfg[3:-4])
+        return lambda: ctx.tlc("ClientBatchMC", cfg, workers=per, label="laws-" + cfg[3:-4], heap="3g")
 
     def build():
         built["bin"] = ctx.go_build("clientbatch")
@@ -315,11 +315,11 @@ def run(ctx):
     nruns = 300 if quick else 6000
 
     def steps(cfg):
-        return lambda: _export(ctx.tlc("ClientBatchMC", cfg, workers=max(2, ctx.cores // 4), label="exp-" + cfg[10:-4]), "STEP")
+        return lambda: _export(ctx.tlc("ClientBatchMC", cfg, workers=max(2, ctx.cores // 4), label="exp-" + cfg[10:-4], heap="3g"), "STEP")
 
     def runs():
         return _export(ctx.tlc("ClientBatchMC", "cb-replay-runs.cfg", simulate="num=%d" % nruns, depth=140, workers=1,
-                               label="exp-runs"), "RUN")
+                               label="exp-runs", heap="2g"), "RUN")
 
     exported = _parallel([steps(c) for c in step_cfgs] + [runs])
     total = sum(len(x) for x in exported)
@@ -433,7 +433,7 @@ def run(ctx):
             txt = open(os.path.join(vf.SPEC, "cfg", "cb-%s-quick.cfg" % fam)).read().replace("%s = FALSE" % tog, "%s = TRUE" % tog)
             p = os.path.join(ctx.sub("mut"), "cb-mutant-%s.cfg" % tog)
             open(p, "w").write(txt)
-            return ctx.tlc("ClientBatchMC", p, workers=3, label="mutant-" + tog, allow_violation=True)
+            return ctx.tlc("ClientBatchMC", p, workers=3, label="mutant-" + tog, allow_violation=True, heap="2g")
         ms = _parallel([(lambda t=t: mutant(t)) for t in TOGGLES])
         missed = [t for t, r in zip(TOGGLES, ms) if not r.violated]
         ctx.notes["spec_mutants_refuted"] = {t: r.violated for t, r in zip(TOGGLES, ms)}
